@@ -1037,6 +1037,88 @@ func exec(run *core.Run, pl interface{}) {
 	}
 	run.ProbeN("corpus-streams", len(corpus))
 
+	// 2b. frames on one connection are decoded independently: a write
+	// request that names its database and policy, then - on the same
+	// connection - one for the same shard and one for a shard the node does
+	// not have, both without database and policy. Each must be handled as
+	// what it says itself: the second writes exactly its own point, the third
+	// (nothing to create the shard from) creates and writes nothing.
+	{
+		type wcall struct {
+			id  uint64
+			pts []string
+		}
+		var seen []wcall
+		prev := n2.Store.OnWrite
+		n2.Store.OnWrite = func(id uint64, pts []models.Point) error {
+			c := wcall{id: id}
+			for _, pt := range pts {
+				if pt != nil {
+					c.pts = append(c.pts, pt.String())
+				}
+			}
+			seen = append(seen, c)
+			return prev(id, pts)
+		}
+		const ghost = 424242
+		mkReq := func(id uint64, named bool, name string) []byte {
+			var r coordinator.WriteShardRequest
+			r.SetShardID(id)
+			if named {
+				r.SetDatabase(storesim.DB)
+				r.SetRetentionPolicy(storesim.RP)
+			}
+			r.AddPoints([]models.Point{models.MustNewPoint(name, models.NewTags(map[string]string{"a": "x"}), models.Fields{"f": 4.0}, t0.Add(3*time.Second))})
+			b, _ := r.MarshalBinary()
+			return b
+		}
+		conn, err := c.Net.Dial(target, 5*time.Second)
+		if err != nil {
+			run.Fail("harness-error", "", "dial for the frame sequence: %v", err)
+			return
+		}
+		conn.Write([]byte{writeHead[0]})
+		frames := []struct {
+			id    uint64
+			named bool
+			name  string
+		}{{shard, true, "fr0"}, {shard, false, "fr1"}, {ghost, false, "fr2"}}
+		for i, fr := range frames {
+			if err := coordinator.WriteTLV(conn, writeHead[1], mkReq(fr.id, fr.named, fr.name)); err != nil {
+				run.Fail("well-formed-request-failed", "frame-sequence", "frame %d of a sequence of write requests on one connection could not be sent: %v", i, err)
+				break
+			}
+			conn.SetReadDeadline(time.Now().Add(time.Minute))
+			if _, _, err := coordinator.ReadTLV(conn); err != nil {
+				run.Fail("well-formed-request-failed", "frame-sequence", "frame %d of a sequence of write requests on one connection got no answer: %v", i, err)
+				break
+			}
+		}
+		conn.Close()
+		n2.Store.OnWrite = prev
+		if run.Failed() {
+			return
+		}
+		if n2.Sim.Store.Shard(ghost) != nil {
+			run.Fail("request-decoded-with-fields-of-an-earlier-frame", "create-shard", "a write request without database and retention policy for shard %d created that shard on the node after an earlier request on the same connection had named them", ghost)
+			return
+		}
+		// (the storage layer is asked about the third frame's shard too: that
+		// attempt fails with "shard not found" and is what makes the service
+		// look for a database and policy in the request)
+		var own []wcall
+		for _, w := range seen {
+			if w.id == shard {
+				own = append(own, w)
+			}
+		}
+		if len(own) != 2 || len(own[0].pts) != 1 || len(own[1].pts) != 1 || !strings.HasPrefix(own[0].pts[0], "fr0,") || !strings.HasPrefix(own[1].pts[0], "fr1,") {
+			run.Fail("request-decoded-with-fields-of-an-earlier-frame", "points", "three write requests on one connection (fr0 and fr1 to shard %d, fr2 to a shard the node lacks) reached the storage layer as %v", shard, seen)
+			return
+		}
+		run.Probe("frame-sequence-on-one-connection")
+	}
+
 	// 3. hostile peer
 	alive := func(what string) bool {
 		type res struct {
